@@ -1354,6 +1354,12 @@ func (fr *frame) inputVal(path string, t types.Type) Val {
 	if v, ok := fr.in.InitBind[path]; ok {
 		return v
 	}
+	if path == "g:strconv.ErrRange" || path == "g:strconv.ErrSyntax" {
+		if st := fr.in.Prog.namedType("errors", "errorString"); st != nil {
+			inner := Val{K: KPtr, S: path + "!"}
+			return Val{K: KIface, T: types.NewPointer(st), Inner: &inner}
+		}
+	}
 	if _, isMap := t.Underlying().(*types.Map); isMap {
 		return Val{K: KPtr, S: path}
 	}
